@@ -15,16 +15,17 @@ def decOpt (c : Codec K) : PyVal → Option (Option K)
   | v => (c.dec v).map some
 
 def eval (c : Codec K) (floor : K → K) : List PyVal → Option (List PyVal)
-  | [.list bins, mn, mx, .list xs, .list qs, nonNull] => do
+  | [.list bins, mn, mx, .list xs, .list qs, count, missing] => do
     let bins ← decPairs c bins
     let mn ← decOpt c mn
     let mx ← decOpt c mx
     let xs ← xs.mapM c.dec
     let qs ← qs.mapM c.dec
-    let nn ← c.dec nonNull
+    let cnt ← c.dec count
+    let mis ← c.dec missing
     pure [.list (xs.map fun x => encOpt c (countAt bins mn mx x)),
           .list (qs.map fun q => encOpt c (quantile floor bins mn mx q)),
-          .list (xs.map fun x => encOpt c (estimateAbove nn bins mn mx x))]
+          .list (xs.map fun x => encOpt c (estimateAbove cnt mis bins mn mx x))]
   | _ => none
 
 end
